@@ -100,6 +100,18 @@ NO_LIMIT = 1073741824  # RandomWalk's "practically infinite" step limit when max
 MUT_W = [None, None, "keys", "dict", "dict", "tensor", "all"]  # how the LM treats the dict it is handed
 
 
+def ret_kind(case):
+    """how the caller edits, in place, every tensor a call handed back to it (tl.scribble); cases
+    written before the field existed: every row becomes the first one"""
+    return case.get("ret_edit") or "row0"
+
+
+def support_calls(case):
+    """the enumerate_support(expand=...) calls made one after the other on one distribution, each
+    result edited in place by the caller before the next call"""
+    return case.get("supp_calls") or [False, True, False]
+
+
 def junk_kinds(rng, n, p_case=0.5, p_cell=0.6):
     """per position None or a kind of non-finite garbage; a kind of tl.JUNK_KINDS is only written
     where the property says the scores are ignored (decided when the tensors are built, from the
@@ -198,7 +210,14 @@ class C07(PropertyCheck):
             "that calls the model more than once per object (walk twice, log_prob twice, sample after "
             "log_prob, the sample/log_prob/clear_cache scripts, support + values; walk and dist with "
             "cache_samples on and off), the caller's "
-            "initial_state compared before/after. non-trivial: an eos strictly inside the "
+            "initial_state compared before/after; every tensor a call RETURNS (sequence_log_probs / module "
+            "scores, greedy score/paths/out_lens, random_walk_advance y/log_probs, the walk's y/lens/log_probs, "
+            "sample(), log_prob scores, enumerate_support(expand=True/False) asked 2-3 times in every order) is "
+            "edited in place by the caller (all rows = the first / a constant / +1 / out of vocabulary / -1; "
+            "NaN, -inf for scores) and the call repeated on the same object: same answer as the first call, the "
+            "tensors handed out earlier keep what the caller wrote; every tensor HANDED IN (values of log_prob / "
+            "support.check, all functional inputs, the score rows the language model returns) compared with a "
+            "clone afterwards. non-trivial: an eos strictly inside the "
             "tensor / a path that ended before the step limit / >= 1 repeated or blank frame removed; "
             "distinct by the full case")
     assumptions = [
@@ -269,7 +288,7 @@ class C07(PropertyCheck):
         logits = [dyadic_logp(rng) if exact else rand_logit(rng) for _ in range(n * V)]
         return {"kind": "seq", "shape": shape, "V": V, "dim": dim, "eos": eos, "exact": exact,
                 "hyp": hyp, "logits": logits, "dtype": dtype, "lay_logits": lay[0], "lay_hyp": lay[1],
-                "junk": junk_kinds(rng, n)}
+                "junk": junk_kinds(rng, n), "ret_edit": rng.choice(tl.EDIT_KINDS)}
 
     # ---- packed
     def gen_packed(self, rng, tier):
@@ -319,7 +338,7 @@ class C07(PropertyCheck):
             junk = [junk[n * Tm:(n + 1) * Tm] for n in range(N)]
         return {"kind": "packed", "lens": lens, "enforce_sorted": enforce, "dim": dim, "V": V,
                 "hyp": hyp, "logits": logits, "exact": exact, "dtype": dtype, "lay_data": lay[0],
-                "lay_hyp": lay[1], "eos_arg": eos_arg, "junk": junk}
+                "lay_hyp": lay[1], "eos_arg": eos_arg, "junk": junk, "ret_edit": rng.choice(tl.EDIT_KINDS)}
 
     # ---- walk
     def canonical_draws(self, V, T, eos):
@@ -373,7 +392,8 @@ class C07(PropertyCheck):
                                    "max_iters": T, "tables": tabs, "default": lm_row(rng, V, exact),
                                    "draws": draws, "exact": exact, "sel": sel,
                                    "dtype": rng.choice(DT_W), "lm_layout": rng.choice(LAY_W),
-                                   "lm_mut": mut, "default_junk": dj, "cache": rng.random() < 0.5}
+                                   "lm_mut": mut, "default_junk": dj, "cache": rng.random() < 0.5,
+                                   "ret_edit": rng.choice(tl.EDIT_KINDS)}
 
     # ---- advance: the step function called directly (with and without prefix lengths)
     def gen_advance(self, rng, tier):
@@ -397,7 +417,8 @@ class C07(PropertyCheck):
                 "lp_t": [[dyadic_logp(rng, -6 * 8, 0) for _ in range(V)] for _ in range(N)],
                 "lp_prev": [dyadic_logp(rng, -20 * 8, 0) for _ in range(N)],
                 "draw": [rng.randrange(V) for _ in range(N)], "bad": bad,
-                "dtype": rng.choice(DT_W), "lay_lp": rng.choice(LAY_W), "lay_y": rng.choice(LAY_W)}
+                "dtype": rng.choice(DT_W), "lay_lp": rng.choice(LAY_W), "lay_y": rng.choice(LAY_W),
+                "ret_edit": rng.choice(tl.EDIT_KINDS)}
 
     # ---- ctor: argument errors of the walk and the wrapper
     def gen_ctor(self, rng, tier):
@@ -435,7 +456,10 @@ class C07(PropertyCheck):
                                    "values": self.dist_values(rng, V, T, e), "exact": False,
                                    "sel": sel, "shared": N is None,
                                    "validate_args": rng.choice([True, True, None, False]),
-                                   "lm_mut": mut, "default_junk": dj, "cache": rng.random() < 0.5}
+                                   "lm_mut": mut, "default_junk": dj, "cache": rng.random() < 0.5,
+                                   "ret_edit": rng.choice(tl.EDIT_KINDS),
+                                   # expanded / unexpanded support in every order, 2-3 calls
+                                   "supp_calls": [rng.random() < 0.5 for _ in range(rng.choice([2, 3]))]}
 
     def dist_values(self, rng, V, T, eos):
         """rows whose validity is asked: every length 1..T+1, with/without eos, OOV before/after eos"""
@@ -515,6 +539,8 @@ class C07(PropertyCheck):
                                    "validate_args": rng.choice([True, True, None, False]),
                                    "dtype": rng.choice(DT_W), "lm_layout": rng.choice(LAY_W),
                                    "lm_mut": mut, "default_junk": dj,
+                                   "ret_edit": rng.choice(tl.EDIT_KINDS),
+                                   "supp_calls": [rng.random() < 0.5 for _ in range(2)],
                                    "script": self.sample_script(rng, shape, N, k)}
 
     # The calls made on ONE distribution object (once with cache_samples=True, once without; the
@@ -530,7 +556,7 @@ class C07(PropertyCheck):
     #   {"op": "clear"}                                     dist.clear_cache()
     VALUE_KINDS = ("full", "alt", "part", "one", "flat", "grid", "pick", "pick", "empty")
     SEGMENTS = ("twice", "equal_copy", "between", "cleared", "resample", "edit_value", "edit_sample",
-                "edit_scores", "reshaped", "hit_after_sample")
+                "edit_scores", "reshaped", "hit_after_sample", "edit_resample")
 
     @staticmethod
     def sshapes_of(m, rng):
@@ -685,6 +711,19 @@ class C07(PropertyCheck):
                     lp(r)
                 ops.append({"op": "set", "ref": r, "draws": o[0], "sshape": o[1]})
                 lp(r)
+            elif name == "edit_resample":
+                # the tensor sample() returned is edited in place, then sample() is called again
+                # (same draws): the new sample is what a fresh object returns, and scores as such
+                c = (list(range(M)), list(shape))
+                o = other(c)
+                if o is None:
+                    continue
+                r = sample() if rng.random() < 0.6 else 0
+                ops.append({"op": "set", "ref": r, "draws": o[0], "sshape": o[1]})
+                r2 = sample()
+                lp(r2)
+                if rng.random() < 0.5:
+                    lp(r)
             elif name == "edit_scores":
                 r, _ = any_tensor()
                 i = lp(r)
@@ -903,7 +942,7 @@ class C07(PropertyCheck):
             junk = [junk[n * T:(n + 1) * T] for n in range(N)]
         return {"kind": "greedy", "V": V, "blank": blank, "batch_first": batch_first,
                 "stream": stream, "frames": frames, "lens": lens, "T": T, "dtype": dtype,
-                "lay_logits": lay[0], "lay_lens": lay[1], "junk": junk}
+                "lay_logits": lay[0], "lay_lens": lay[1], "junk": junk, "ret_edit": rng.choice(tl.EDIT_KINDS)}
 
     # ------------------------------------------------------------------ implementation
     def run_impl(self, case):
@@ -948,10 +987,18 @@ class C07(PropertyCheck):
         ctx = tl.identity_log_softmax() if case["exact"] else _null()
         with ctx:
             out = sequence_log_probs(logits, hyp, case["dim"], case["eos"])
-            out2 = SequenceLogProbabilities(case["dim"], case["eos"])(logits, hyp)
-        return {"shape": list(out.shape), "out": [tl.fs(x) for x in out.flatten().tolist()],
-                "module_same": bool(torch.equal(out, out2)),
-                "inputs_same": bool(tl.same_tensor(l0, logits) and torch.equal(h0, hyp))}
+            mod = SequenceLogProbabilities(case["dim"], case["eos"])
+            out2 = mod(logits, hyp)
+            obs = {"shape": list(out.shape), "out": [tl.fs(x) for x in out.flatten().tolist()],
+                   "module_same": bool(torch.equal(out, out2))}
+            # the caller edits what it was handed back, in place, and asks the same objects again
+            o0 = out.clone()
+            kept = [(t, tl.scribble(t, ret_kind(case))) for t in (out, out2)]
+            obs["again_same"] = bool(tl.same_tensor(mod(logits, hyp), o0)
+                                     and tl.same_tensor(sequence_log_probs(logits, hyp, case["dim"], case["eos"]), o0))
+            obs["returned_kept"] = all(tl.same_tensor(t, c) for t, c in kept)
+        obs["inputs_same"] = bool(tl.same_tensor(l0, logits) and torch.equal(h0, hyp))
+        return obs
 
     def req_seq(self, case):
         import torch
@@ -1033,8 +1080,15 @@ class C07(PropertyCheck):
                     padded = [tl.fs(x) for x in sequence_log_probs(logits, hp, 1, None).tolist()]
                 except Exception as ex:  # the padded-tensor path, not the packed one, raised
                     padded = {"error": type(ex).__name__, "message": str(ex)[:160]}
-        return {"out": [tl.fs(x) for x in out.tolist()], "padded": padded,
-                "inputs_same": bool(tl.same_tensor(d0, ps.data) and torch.equal(h0, h))}
+            obs = {"out": [tl.fs(x) for x in out.tolist()], "padded": padded}
+            o0 = out.clone()
+            kept = tl.scribble(out, ret_kind(case))
+            again = sequence_log_probs(ps, h, dim) if case.get("eos_arg") is None else \
+                sequence_log_probs(ps, h, dim, case["eos_arg"])
+            obs["again_same"] = bool(tl.same_tensor(again, o0))
+            obs["returned_kept"] = bool(tl.same_tensor(out, kept))
+        obs["inputs_same"] = bool(tl.same_tensor(d0, ps.data) and torch.equal(h0, h))
+        return obs
 
     def req_packed(self, case):
         import torch
@@ -1076,12 +1130,20 @@ class C07(PropertyCheck):
                "lp": [tl.fs(x) for x in lp.tolist()], "steps": len(log), "walk_eos": walk.eos,
                "unused_draws": len(case["draws"]) - len(log)}
 
+        # what the walk handed back is the caller's: it edits all three tensors in place ...
+        first = (y, lens, lp)
+        y, lens, lp = y.clone(), lens.clone(), lp.clone()
+        kept = [(t, tl.scribble(t, ret_kind(case), V)) for t in first]
+
         def again():
-            # the same walk object a second time with the same draws: nothing may be left over
+            # ... and calls the same walk object a second time with the same draws: nothing may be
+            # left over, and the tensors of the first call stay as the caller left them
             with ctx(), tl.replay_multinomial(case["draws"], []):
                 y2, lens2, lp2 = walk(init_state(case), N if case["batched"] else None, T)
             if not case["batched"]:
                 y2, lens2, lp2 = y2.unsqueeze(1), lens2.unsqueeze(0), lp2.unsqueeze(0)
+            if not all(tl.same_tensor(t, c) for t, c in kept):
+                return "the tensors the first call returned changed during the second call"
             return bool(torch.equal(y2, y) and torch.equal(lens2, lens) and tl.same_tensor(lp2, lp))
         obs["walk_again_same"] = attempt(again)
         # the two other code paths: the wrapper's log_prob and sequence_log_probs on the LM's outputs
@@ -1094,6 +1156,7 @@ class C07(PropertyCheck):
                 snap = tl.state_snapshot(init or {})
                 dist = SequentialLanguageModelDistribution(walk, N, init, T, validate_args=True,
                                                            cache_samples=bool(case.get("cache")))
+                first_y = y.clone()
                 value = y.t().unsqueeze(0)
                 obs["dist_lp_shapes"] = []
 
@@ -1114,7 +1177,22 @@ class C07(PropertyCheck):
                     obs["dist_sample"] = smp
                 else:
                     obs["dist_sample"] = smp.tolist()
+                    v0 = smp.unsqueeze(0).clone()
                     obs["dist_sample_lp"] = attempt(lambda: lp_of(smp.unsqueeze(0)))
+                    obs["value_same"] = bool(torch.equal(v0, smp.unsqueeze(0)))
+                    # the sample is edited in place by the caller; a new sample with the same draws
+                    # and its score are those of a fresh object
+                    smp_kept = tl.scribble(smp, ret_kind(case), V)
+                    smp2 = attempt(resample)
+                    if isinstance(smp2, dict):
+                        obs["dist_sample_again"] = smp2
+                    else:
+                        obs["dist_sample_again"] = smp2.tolist()
+                        obs["dist_sample_again_lp"] = attempt(lambda: lp_of(smp2.unsqueeze(0)))
+                        obs["sample_kept"] = bool(torch.equal(smp, smp_kept))
+                obs["value_same"] = bool(obs.get("value_same", True) and torch.equal(value, y.t().unsqueeze(0))
+                                         and torch.equal(y, first_y))
+                obs["lm_rows_modified"] = lm.rows_modified()
                 obs["init_changes"] = tl.state_changes(dist.initial_state, snap) + (
                     [] if init is None else tl.state_changes(init, snap))
         return obs
@@ -1156,10 +1234,20 @@ class C07(PropertyCheck):
         log = []
         with tl.replay_multinomial([case["draw"]], log):
             y, lp = random_walk_advance(lp_t, lp_prev, y_prev, lens)
+        # both results are the caller's: it edits copies' originals in place (an input must not
+        # change with them) and takes the same step again from the same prefix
+        first = (y, lp)
+        y, lp = y.clone(), lp.clone()
+        kept = [(t, tl.scribble(t, ret_kind(case), V)) for t in first]
+        with tl.replay_multinomial([case["draw"]], []):
+            y2, lp2 = random_walk_advance(lp_t, lp_prev, y_prev, lens)
+        again_same = bool(torch.equal(y2, y) and tl.same_tensor(lp2, lp))
+        returned_kept = all(tl.same_tensor(t, c) for t, c in kept)
         same = torch.equal(saved[0], lp_t) and torch.equal(saved[1], lp_prev) and torch.equal(saved[2], y_prev) \
             and (lens is None or torch.equal(saved[3], lens))
         return {"y_shape": list(y.shape), "y": y.tolist(), "lp": [tl.fs(x) for x in lp.tolist()],
-                "lp_shape": list(lp.shape), "draws": len(log), "inputs_same": bool(same)}
+                "lp_shape": list(lp.shape), "draws": len(log), "inputs_same": bool(same),
+                "again_same": again_same, "returned_kept": returned_kept}
 
     def req_advance(self, case):
         if case.get("bad"):
@@ -1236,9 +1324,12 @@ class C07(PropertyCheck):
         frac = supp[:1].to(torch.float32) + 0.5
         obs["check_fractional"] = bool(dist.support.check(frac).any())
         valid, check, value_lp = [], [], []
+        supp0 = supp.clone()
+        obs["values_modified"] = []
         for v in case["values"]:
             val = torch.tensor(v, dtype=torch.long)
             val = val.view(1, -1) if N is None else val.view(1, 1, -1).expand(1, N, -1)
+            val0 = val.clone()
             try:
                 check.append(bool(dist.support.check(val).all()))
             except Exception as ex:
@@ -1256,12 +1347,32 @@ class C07(PropertyCheck):
             except Exception as ex:
                 valid.append(type(ex).__name__)
                 value_lp.append(None)
+            if not torch.equal(val, val0):
+                obs["values_modified"].append(v)
         obs["valid"] = valid
         obs["value_lp"] = value_lp
         obs["check"] = check
         # the support scored once more after all those calls on the same object
         if isinstance(obs["support_lp"], list):
             obs["support_lp_again"] = attempt(lambda: bool(tl.same_tensor(dist.log_prob(supp), lps)))
+
+            def edited_scores():
+                # the scores a call returned (computed, then answered from the cache when there is
+                # one) are edited in place by the caller before the next call
+                lps0 = lps.clone()
+                dist.clear_cache()
+                for _ in range(2):
+                    a = dist.log_prob(supp)
+                    if not tl.same_tensor(a, lps0):
+                        return False
+                    tl.scribble(a, ret_kind(case))
+                return bool(tl.same_tensor(dist.log_prob(supp), lps0))
+            obs["support_lp_after_edits"] = attempt(edited_scores)
+        if not torch.equal(supp, supp0):
+            obs["values_modified"].append("enumerate_support()")
+        # the support asked for again and again, the caller editing every answer in place
+        obs["support_calls"], obs["support_kept"] = self.support_rounds(dist, case, N is not None)
+        obs["lm_rows_modified"] = lm.rows_modified()
         obs["init_changes"] = tl.state_changes(dist.initial_state, snap) + (
             [] if init is None else tl.state_changes(init, snap))
         return obs
@@ -1282,6 +1393,46 @@ class C07(PropertyCheck):
                      for k, r in tab.items()] for tab in tabs],
             "plm_default": case["default"], "pinned": False, "values": values,
             "validate_args": case.get("validate_args", True)}}
+
+    @staticmethod
+    def support_rounds(dist, case, batched):
+        """enumerate_support(expand=e) for every e of the case's call list on ONE distribution; each
+        result is recorded, then edited in place by the caller (who owns it). -> per call its shape,
+        the rows of batch element 0 and whether all batch elements list the same rows; and whether
+        every tensor handed out still holds what the caller wrote once all calls are made"""
+        import torch
+        calls, kept = [], []
+        for expand in support_calls(case):
+            t = dist.enumerate_support(expand=expand)
+            r = t.reshape(t.size(0), -1, t.size(-1)) if batched else t.unsqueeze(1)
+            calls.append({"expand": expand, "shape": list(t.shape), "rows": r[:, 0].tolist(),
+                          "elements_same": bool((r == r[:, :1]).all())})
+            kept.append((t, tl.scribble(t, ret_kind(case), case["V"])))
+        return calls, all(torch.equal(t, c) for t, c in kept)
+
+    def pred_support_rounds(self, case, impl, spec_support, first_rows):
+        fails = []
+        N, T = case["N"], case["max_iters"]
+        seq = ", then ".join(f"enumerate_support(expand={e})" for e in support_calls(case))
+        for i, c in enumerate(impl.get("support_calls") or []):
+            exp_shape = [len(spec_support)] + ([] if N is None else [N if c["expand"] else 1]) + [T]
+            bad = []
+            if c["shape"] != exp_shape:
+                bad.append(f"has shape {c['shape']}, expected {exp_shape}")
+            if c["rows"] != first_rows:
+                bad.append(f"lists {c['rows']}, the first call on the object listed {first_rows}")
+            elif not c["elements_same"]:
+                bad.append("lists other rows for another batch element")
+            if sorted(c["rows"]) != spec_support or len(set(map(tuple, c["rows"]))) != len(c["rows"]):
+                bad.append(f"is not the set of eos-truncated sequences {spec_support} without repetition")
+            if bad:
+                fails.append((f"call {i} of [{seq}] on one distribution, every returned tensor edited in place by "
+                              f"the caller ({ret_kind(case)}) before the next call: " + "; ".join(bad), None))
+                break
+        if impl.get("support_kept", True) is not True:
+            fails.append((f"[{seq}]: a tensor an earlier call returned (edited by the caller) changed during a "
+                          f"later call", None))
+        return fails
 
     @staticmethod
     def py_support(V, T, eos):
@@ -1387,19 +1538,29 @@ class C07(PropertyCheck):
                         if op["id"] in outs:
                             outs[op["id"]].sub_(1)
                     else:
+                        v0 = tensors[op["ref"]].clone()
                         try:
                             lp = dist.log_prob(tensors[op["ref"]])
                             outs[op["id"]] = lp
                             calls.append({"shape": list(lp.shape), "data": [tl.fs(x) for x in lp.reshape(-1).tolist()]})
                         except Exception as ex:
                             calls.append({"error": type(ex).__name__, "message": str(ex)[:160]})
+                        if not torch.equal(v0, tensors[op["ref"]]):
+                            obs.setdefault("values_modified", []).append(op["id"])
                 obs[key] = calls
                 obs[key + "_resampled_same"] = all(resampled)
                 obs["init_changes"] += tl.state_changes(dist.initial_state, snap) + (
                     [] if init is None else tl.state_changes(init, snap))
-            if T is not None:
-                supp = dist.enumerate_support()
-                obs["support"] = (supp if N is None else supp[:, 0]).tolist()
+                if T is not None:
+                    # (on both objects, after everything else that happened to them)
+                    supp = dist.enumerate_support()
+                    obs["support"] = (supp if N is None else supp[:, 0]).tolist()
+                    obs["support_calls"], kept = self.support_rounds(dist, case, N is not None)
+                    obs["support_kept"] = bool(obs.get("support_kept", True) and kept
+                                               and obs["support"] == (supp if N is None else supp[:, 0]).tolist())
+                    obs.setdefault("support_calls_all", []).extend(obs["support_calls"])
+            obs["support_calls"] = obs.pop("support_calls_all", [])
+            obs["lm_rows_modified"] = lm.rows_modified()
         return obs
 
     def req_sample(self, case):
@@ -1470,7 +1631,19 @@ class C07(PropertyCheck):
         ctx = tl.identity_log_softmax() if case["stream"] == "logp" else _null()
         with ctx:
             mx, paths, out_lens = ctc_greedy_search(x, lens, case["blank"], case["batch_first"], is_probs)
-            mx2, paths2, out_lens2 = CTCGreedySearch(case["blank"], case["batch_first"], is_probs)(x, lens)
+            mod = CTCGreedySearch(case["blank"], case["batch_first"], is_probs)
+            mx2, paths2, out_lens2 = mod(x, lens)
+            # the module's answers are edited in place by the caller, then the module is asked again
+            first = [t.clone() for t in (mx2, paths2, out_lens2)]
+            kept = [(t, tl.scribble(t, ret_kind(case), case["V"])) for t in (mx2, paths2, out_lens2)]
+            third = mod(x, lens)
+            n_ = len(case["frames"])
+            pv = (lambda p: p) if case["batch_first"] else (lambda p: p.t())
+            again_same = bool(tl.same_tensor(third[0], first[0]) and torch.equal(third[2], first[2]) and all(
+                torch.equal(pv(third[1])[n, : int(first[2][n])], pv(first[1])[n, : int(first[2][n])])
+                for n in range(n_)))
+            returned_kept = all(tl.same_tensor(t, c) for t, c in kept)
+            mx2, paths2, out_lens2 = first
         pshape = list(paths.shape)
         if not case["batch_first"]:
             paths, paths2 = paths.t(), paths2.t()
@@ -1479,6 +1652,7 @@ class C07(PropertyCheck):
                 "paths": [paths[n, : ol[n]].tolist() for n in range(N)],
                 "module_same": bool(tl.same_tensor(mx, mx2) and torch.equal(out_lens, out_lens2)
                                     and all(torch.equal(paths[n, : ol[n]], paths2[n, : ol[n]]) for n in range(N))),
+                "again_same": again_same, "returned_kept": returned_kept,
                 "inputs_same": bool(tl.same_tensor(x0, x) and (lens is None or torch.equal(l0, lens)))}
 
     def req_greedy(self, case):
@@ -1503,6 +1677,19 @@ class C07(PropertyCheck):
     @staticmethod
     def err(impl):
         return isinstance(impl, dict) and "error" in impl
+
+    @staticmethod
+    def pred_returned(case, impl, what):
+        """the tensors a call returned are the caller's: edited in place, the next call on the same
+        object / with the same arguments answers as the first one did, and leaves them alone"""
+        fails = []
+        if impl.get("again_same", True) is not True:
+            fails.append((f"{what} called again after the caller edited the returned tensors in place "
+                          f"({ret_kind(case)}): the answer differs from the first one", None))
+        if impl.get("returned_kept", True) is not True:
+            fails.append((f"{what}: a tensor the first call returned (edited by the caller) changed during the "
+                          f"second call", None))
+        return fails
 
     # ---- seq
     def cmp_seq(self, case, impl, model):
@@ -1545,6 +1732,7 @@ class C07(PropertyCheck):
             fails.append(("SequenceLogProbabilities differs from the functional", None))
         if not impl.get("inputs_same", True):
             fails.append(("sequence_log_probs modified its input tensors", None))
+        fails += self.pred_returned(case, impl, "sequence_log_probs / the SequenceLogProbabilities object")
         return fails
 
     # ---- packed
@@ -1595,6 +1783,7 @@ class C07(PropertyCheck):
             fails.append((f"packed {impl['out']} != padded {impl['padded']}", None))
         if not impl.get("inputs_same", True):
             fails.append(("packed sequence_log_probs modified its input tensors", None))
+        fails += self.pred_returned(case, impl, "packed sequence_log_probs")
         return fails
 
     # ---- walk
@@ -1670,10 +1859,13 @@ class C07(PropertyCheck):
         lm_note = (f"(language model: dictionary handling {case.get('lm_mut') or 'new dictionaries'}, rows for "
                    f"ended paths {case.get('default_junk') or 'finite'})")
         if impl.get("walk_again_same", True) is not True:
-            fails.append((f"the same RandomWalk called a second time with the same draws: "
+            fails.append((f"the same RandomWalk called a second time with the same draws, after the caller "
+                          f"edited the first call's y, lens and log-probabilities in place ({ret_kind(case)}): "
                           f"{impl['walk_again_same']} (True = same result) {lm_note}", None))
         for key, what in (("dist_lp_again", "a second log_prob of the walk's output on the same distribution"),
-                          ("dist_sample_lp", "log_prob of a sample drawn after log_prob on the same distribution")):
+                          ("dist_sample_lp", "log_prob of a sample drawn after log_prob on the same distribution"),
+                          ("dist_sample_again_lp", f"log_prob of a sample drawn after the caller edited the previous "
+                                                   f"sample in place ({ret_kind(case)})")):
             if key not in impl:
                 continue
             if isinstance(impl[key], dict):
@@ -1684,15 +1876,26 @@ class C07(PropertyCheck):
             fails.append((f"log_prob of the walk's output as a (1, N, S) value (cache_samples="
                           f"{bool(case.get('cache'))}; first call, second call, after a sample): shapes "
                           f"{impl['dist_lp_shapes']}, expected [1, {case['N']}] each", None))
-        if "dist_sample" in impl:
+        for key, when in (("dist_sample", "after log_prob on the same distribution"),
+                          ("dist_sample_again", f"after the caller edited the previous sample in place "
+                                                f"({ret_kind(case)}), same distribution")):
+            if key not in impl:
+                continue
             e = norm_eos(case)
             want = [p + [e] * (s["steps"] - len(p)) for p in s["paths"]]
-            if isinstance(impl["dist_sample"], dict):
-                fails.append((f"sample() after log_prob on the same distribution raised {impl['dist_sample']} "
-                              f"{lm_note}", None))
-            elif impl["dist_sample"] != want:
-                fails.append((f"sample() after log_prob on the same distribution, same draws: {impl['dist_sample']} "
+            if isinstance(impl[key], dict):
+                fails.append((f"sample() {when} raised {impl[key]} {lm_note}", None))
+            elif impl[key] != want:
+                fails.append((f"sample() {when}, same draws: {impl[key]} "
                               f"!= the paths padded with eos {want} {lm_note}", None))
+        if impl.get("sample_kept", True) is not True:
+            fails.append(("the tensor an earlier sample() returned (edited by the caller) changed during a later "
+                          "sample()/log_prob on the same distribution", None))
+        if impl.get("value_same", True) is not True:
+            fails.append(("log_prob modified the value it was handed", None))
+        if impl.get("lm_rows_modified"):
+            fails.append((f"{impl['lm_rows_modified']} of the score tensors the language model returned were "
+                          f"modified in place by the walk / wrapper {lm_note}", None))
         if impl.get("init_changes"):
             fails.append((f"the initial_state of the distribution was modified: {impl['init_changes']} "
                           f"{lm_note}", None))
@@ -1773,6 +1976,18 @@ class C07(PropertyCheck):
         if impl.get("support_lp_again", True) is not True:
             fails.append((f"log_prob(enumerate_support()) once more on the same distribution: "
                           f"{impl['support_lp_again']} (True = same values) {lm_note}", None))
+        if impl.get("support_lp_after_edits", True) is not True:
+            fails.append((f"log_prob(enumerate_support()) three times on the same distribution (cache_samples="
+                          f"{bool(case.get('cache'))}), the caller editing the returned scores in place "
+                          f"({ret_kind(case)}) after each call: {impl['support_lp_after_edits']} (True = same "
+                          f"values every time) {lm_note}", None))
+        fails += self.pred_support_rounds(case, impl, s["support"], impl["support"])
+        if impl.get("values_modified"):
+            fails.append((f"log_prob / support.check modified the value it was handed: {impl['values_modified']}",
+                          None))
+        if impl.get("lm_rows_modified"):
+            fails.append((f"{impl['lm_rows_modified']} of the score tensors the language model returned were "
+                          f"modified in place by the wrapper {lm_note}", None))
         if impl.get("init_changes"):
             fails.append((f"the initial_state of the distribution was modified: {impl['init_changes']} "
                           f"{lm_note}", None))
@@ -1934,6 +2149,18 @@ class C07(PropertyCheck):
         if impl.get("init_changes"):
             fails.append((f"the initial_state of the distribution was modified: {impl['init_changes']} "
                           f"(language model: dictionary handling {case.get('lm_mut') or 'new dictionaries'})", None))
+        if T is not None:
+            calls_ = support_calls(case)
+            # (the rounds ran on the caching and on the never-caching object)
+            for part in (impl.get("support_calls", [])[:len(calls_)], impl.get("support_calls", [])[len(calls_):]):
+                fails += self.pred_support_rounds(case, dict(impl, support_calls=part),
+                                                  C07.py_support(V, T, eos), impl["support"])
+        if impl.get("values_modified"):
+            fails.append((f"log_prob modified the value it was handed (calls {impl['values_modified']}); calls: "
+                          f"{self.describe_script(case, max(impl['values_modified']))}", None))
+        if impl.get("lm_rows_modified"):
+            fails.append((f"{impl['lm_rows_modified']} of the score tensors the language model returned were "
+                          f"modified in place by the walk / wrapper", None))
         for key in ("cached", "fresh"):
             if not impl[key + "_resampled_same"]:
                 fails.append((f"cache_samples={key == 'cached'}: sample() with the same draws later on the same "
@@ -2045,7 +2272,9 @@ class C07(PropertyCheck):
         if impl["draws"] != 1:
             fails.append((f"{impl['draws']} draws taken in one step", None))
         if not impl["inputs_same"]:
-            fails.append(("random_walk_advance modified its input tensors", None))
+            fails.append(("random_walk_advance modified its input tensors (or returned a tensor that shares "
+                          "storage with one: the caller edited the results in place)", None))
+        fails += self.pred_returned(case, impl, "random_walk_advance (same prefix, same draw)")
         return fails
 
     # ---- ctor
@@ -2110,7 +2339,9 @@ class C07(PropertyCheck):
         if not impl["module_same"]:
             fails.append(("CTCGreedySearch differs from the functional", None))
         if not impl.get("inputs_same", True):
-            fails.append(("ctc_greedy_search modified its input tensors", None))
+            fails.append(("ctc_greedy_search modified its input tensors (or returned a tensor that shares "
+                          "storage with one: the caller edited the results in place)", None))
+        fails += self.pred_returned(case, impl, "the CTCGreedySearch object")
         return fails
 
     # ------------------------------------------------------------------ evidence
@@ -2213,6 +2444,12 @@ class C07(PropertyCheck):
         def lm_tags(prefix):
             t.append(f"{prefix}.lm_state_dict={case.get('lm_mut') or 'new dictionaries'}")
             t.append(f"{prefix}.lm_rows_after_eos={case.get('default_junk') or 'finite'}")
+
+        if k in ("seq", "packed", "greedy", "advance", "walk", "dist", "sample"):
+            t.append(f"{k}.caller_edits_returned_tensors_in_place={ret_kind(case)}")
+        if k in ("dist", "sample") and case["max_iters"] is not None:
+            t.append(f"{k}.enumerate_support_calls_edited_in_between=" +
+                     "/".join("expanded" if e else "unexpanded" for e in support_calls(case)))
 
         def eos_tag(prefix):
             e = case["eos"]
@@ -2328,6 +2565,15 @@ class C07(PropertyCheck):
             c = dict(case)
             c["cache"] = False
             yield c
+        if case.get("ret_edit") not in (None, "incr"):
+            c = dict(case)
+            c["ret_edit"] = "incr"
+            yield c
+        if case.get("supp_calls") and len(case["supp_calls"]) > 2:
+            for i in range(len(case["supp_calls"])):
+                c = dict(case)
+                c["supp_calls"] = case["supp_calls"][:i] + case["supp_calls"][i + 1:]
+                yield c
         if k == "seq":
             yield from self.shrink_seq(case)
         elif k == "walk":
@@ -2438,7 +2684,7 @@ class C07(PropertyCheck):
                         + script[i + 1:]
                     yield c
         segs = ["hit_after_sample", "twice:full", "twice:one", "equal_copy", "edit_sample", "edit_value",
-                "edit_scores", "cleared", "reshaped"]
+                "edit_scores", "cleared", "reshaped", "edit_resample"]
         if len(case["shape"]) > 1 and case["N"] is not None:
             c = dict(case)
             c["shape"] = [prodl(case["shape"])]
